@@ -41,7 +41,7 @@ ASSUMPTIONS = ['flags.enable_conn_pool is False (default)',
                'and tasks complete in the iteration that created them (true of all handlers shipped with proxy.py)',
                'constructing the work object (work_klass(...)) does not raise; BaseException (KeyboardInterrupt, CancelledError) is out of scope']
 SHARD = 18
-CASE_TIMEOUT = 12      # a case whose implementation run does not return (a loop inside the worker) is a failing input
+CASE_TIMEOUT = 30      # a case whose implementation run does not return (a loop inside the worker) is a failing input
 
 
 # ----------------------------------------------------------------------------- generation
